@@ -31,6 +31,7 @@ type lyJob struct {
 	ForceBackend    int    `json:"force_backend"`    // replay: -1 = as usual, 0 plain, 1 file, 2 memfd
 	KnownSizeWrap   bool   `json:"known_size_wrap"`  // finding size-plus-header-wraps-uint32 is listed: skip its class
 	KnownQueueWrap  bool   `json:"known_queue_wrap"` // finding queue-cap-times-12-wraps-uint32 is listed: skip its class
+	KnownPctWrap    bool   `json:"known_pct_wrap"`   // finding percent-sum-wraps-uint32 is listed: skip its class
 	Witnesses       bool   `json:"witnesses"`        // reproduce the witnesses of both findings
 	Edge            bool   `json:"edge"`             // run the cases at the top of the uint32 range (sparse 4 GiB mapping)
 	MaxViolations   int    `json:"max_violations"`
@@ -257,6 +258,25 @@ func lySameView(a, b lyGeom) string {
 	return ""
 }
 
+type lySlots struct{ offs []int64 }
+
+func newLySlots(chain []int64, regionOff int64) lySlots {
+	o := make([]int64, len(chain))
+	for i, c := range chain {
+		o[i] = regionOff + c
+	}
+	sort.Slice(o, func(i, j int) bool { return o[i] < o[j] })
+	return lySlots{o}
+}
+
+func (s lySlots) index(o int64) int {
+	k := sort.Search(len(s.offs), func(i int) bool { return s.offs[i] >= o })
+	if k < len(s.offs) && s.offs[k] == o {
+		return k
+	}
+	return -1
+}
+
 func lyPat(list int, off int64, j int) byte { return byte(list*31 + int(off%251)*7 + j*13 + 1) }
 
 // functional oracle: the creator allocates every allocatable slot through the real pop, fills it, the peer reads each one
@@ -267,11 +287,8 @@ func (st *lyState) lyExchange(a, b *bufferManager, ga lyGeom) string {
 	for i, l := range a.lists {
 		x := ga.Lists[i]
 		chain, _ := lyChain(l)
-		slots := map[int64]bool{}
-		for _, s := range chain {
-			slots[x.RegionOff+s] = true
-		}
-		seen := map[int64]bool{}
+		slots := newLySlots(chain, x.RegionOff)
+		seen := make([]bool, len(chain))
 		var got []*bufferSlice
 		for {
 			s, err := l.pop()
@@ -288,10 +305,11 @@ func (st *lyState) lyExchange(a, b *bufferManager, ga lyGeom) string {
 		}
 		for _, s := range got {
 			o := int64(s.offsetInShm)
-			if !slots[o] || seen[o] {
+			if k := slots.index(o); k < 0 || seen[k] {
 				return fmt.Sprintf("class %d: pop returned offset %d which is not a (distinct) slot of the class", i, o)
+			} else {
+				seen[k] = true
 			}
-			seen[o] = true
 			if int64(len(s.data)) != x.CapPer || int64(s.cap) != x.CapPer ||
 				int64(lySliceBase(s.data))-int64(baseA) != o+bufferHeaderSize || int64(lySliceBase(s.bufferHeader))-int64(baseA) != o {
 				return fmt.Sprintf("class %d: buffer at %d: data len %d cap %d at mapping offset %d, header at %d (class capPer %d)", i, o,
@@ -349,7 +367,7 @@ func (st *lyState) lyExchange(a, b *bufferManager, ga lyGeom) string {
 		}
 		// peer allocates
 		n := 0
-		seen = map[int64]bool{}
+		seen = make([]bool, len(chain))
 		var back []*bufferSlice
 		for {
 			s, err := b.lists[i].pop()
@@ -358,11 +376,12 @@ func (st *lyState) lyExchange(a, b *bufferManager, ga lyGeom) string {
 			}
 			n++
 			o := int64(s.offsetInShm)
-			if !slots[o] || seen[o] || int64(len(s.data)) != x.CapPer || int64(lySliceBase(s.data))-int64(baseB) != o+bufferHeaderSize {
+			k := slots.index(o)
+			if k < 0 || seen[k] || int64(len(s.data)) != x.CapPer || int64(lySliceBase(s.data))-int64(baseB) != o+bufferHeaderSize {
 				return fmt.Sprintf("class %d: peer's pop returned offset %d (len %d, data at %d): not a distinct slot of the class", i, o,
 					len(s.data), int64(lySliceBase(s.data))-int64(baseB))
 			}
-			seen[o] = true
+			seen[k] = true
 			back = append(back, s)
 			if int64(n) > x.Cap {
 				break
@@ -878,25 +897,41 @@ func lySparse(n int) ([]byte, error) {
 }
 
 func lySizeWraps(size uint32) bool { return size > 4294967295-bufferHeaderSize }
+func lyPctWraps(pairs [][2]uint32) bool {
+	sum := uint64(0)
+	for _, p := range pairs {
+		sum += uint64(p[1])
+	}
+	return sum >= 1<<32
+}
 func lyQueueWraps(cap uint32) bool { return uint64(cap)*queueElementLen+queueHeaderLength >= 1<<32 }
 
 // one configuration on the sparse 4 GiB mapping; returns "" or what the real code did wrong
-func (st *lyState) lyTop(mem []byte, size, pct uint32) (bad string) {
+func (st *lyState) lyTop(mem []byte, prs [][2]uint32) (bad string) {
 	defer func() {
 		if r := recover(); r != nil {
 			bad = fmt.Sprintf("panic: %v", r)
 		}
 		_ = syscall.Madvise(mem, syscall.MADV_DONTNEED)
 	}()
-	cfg := DefaultConfig()
-	cfg.ShareMemoryBufferCap = lyTopMem
-	cfg.BufferSliceSizes = []*SizePercentPair{{Size: size, Percent: 100}}
-	if err := VerifyConfig(cfg); err != nil {
-		return "" // outside the quantified domain
+	pairs := []*SizePercentPair{}
+	for _, p := range prs {
+		// the rule of VerifyConfig that delimits the quantified domain: Size <= capacity
+		cfg := DefaultConfig()
+		cfg.ShareMemoryBufferCap = lyTopMem
+		cfg.BufferSliceSizes = []*SizePercentPair{{Size: p[0], Percent: 100}}
+		if err := VerifyConfig(cfg); err != nil {
+			return ""
+		}
+		pairs = append(pairs, &SizePercentPair{Size: p[0], Percent: p[1]})
 	}
-	a, err := createBufferManager([]*SizePercentPair{{Size: size, Percent: pct}}, "vs-layout-top", mem, 0)
+	hdr0 := uint16(len(pairs))
+	a, err := createBufferManager(pairs, "vs-layout-top", mem, 0)
 	if err != nil {
 		return ""
+	}
+	if got := *(*uint16)(unsafe.Pointer(&mem[0])); got != hdr0 {
+		return fmt.Sprintf("createBufferManager reports success but the class-count word of the manager header reads %d instead of %d (a class was laid over it)", got, hdr0)
 	}
 	b, err := mappingBufferManager("vs-layout-top", mem, 0)
 	if err != nil {
@@ -924,7 +959,7 @@ func (st *lyState) lyEdges() {
 				continue
 			}
 			st.res.EdgeCases++
-			if bad := st.lyTop(mem, size, pct); bad != "" {
+			if bad := st.lyTop(mem, [][2]uint32{{size, pct}}); bad != "" {
 				st.violate("uint32 edge", fmt.Sprintf("mapping of %d bytes, pair {Size:%d Percent:%d} (VerifyConfig accepts it): %s", lyTopMem, size, pct, bad),
 					"E", []int64{int64(size), int64(pct)}, 0)
 			}
@@ -932,8 +967,34 @@ func (st *lyState) lyEdges() {
 	}
 	// a class of ordinary size next to the top: 4 GiB - 1 mapping, 1 MiB slices in 1 percent
 	st.res.EdgeCases++
-	if bad := st.lyTop(mem, 1<<20, 1); bad != "" {
+	if bad := st.lyTop(mem, [][2]uint32{{1 << 20, 1}}); bad != "" {
 		st.violate("uint32 edge", "4 GiB mapping, pair {1 MiB, 1}: "+bad, "E", []int64{1 << 20, 1}, 0)
+	}
+	// percentages at the top of the uint32 range (seeded), sizes large enough that few pages are touched
+	for i := 0; i < 40; i++ {
+		k := 2 + st.rng.Intn(2)
+		prs := [][2]uint32{}
+		flat := []int64{}
+		for j := 0; j < k; j++ {
+			size := uint32(1<<20) << uint(st.rng.Intn(10))
+			if st.rng.Intn(3) == 0 {
+				size = uint32(1<<20 + st.rng.Intn(1<<30))
+			}
+			pct := uint32(st.rng.Intn(101))
+			if j == 1 || st.rng.Intn(4) == 0 {
+				pct = uint32(4294967295 - st.rng.Intn(100))
+			}
+			prs = append(prs, [2]uint32{size, pct})
+			flat = append(flat, int64(size), int64(pct))
+		}
+		if lyPctWraps(prs) && st.job.KnownPctWrap {
+			st.res.EdgeSkipped++
+			continue
+		}
+		st.res.EdgeCases++
+		if bad := st.lyTop(mem, prs); bad != "" {
+			st.violate("uint32 edge", fmt.Sprintf("mapping of %d bytes, pairs %v: %s", lyTopMem, prs, bad), "E", flat, 0)
+		}
 	}
 	for _, cap := range []uint32{357913938, 357913939, 357913940, 357913941, 357913942, 357913943, 715827883} {
 		if lyQueueWraps(cap) && st.job.KnownQueueWrap {
@@ -1008,13 +1069,25 @@ func (st *lyState) lyWitnesses() {
 	if x := st.res.Witness["size-plus-header-wraps-uint32"]; x.Reproduced {
 		x.Detail = "VerifyConfig accepts ShareMemoryBufferCap=4294967295 BufferSliceSizes=[{4294967276 100}]; getGlobalBufferManagerWithMemFd(create): " + x.Detail
 		if mem, err := lySparse(lyTopMem); err == nil {
-			if s := st.lyTop(mem, 4294967277, 1); s != "" {
+			if s := st.lyTop(mem, [][2]uint32{{4294967277, 1}}); s != "" {
 				x.Detail += "; pair {4294967277 1}: " + s
 			}
 			_ = syscall.Munmap(mem)
 		}
 		st.res.Witness["size-plus-header-wraps-uint32"] = x
 	}
+	st.res.Witness["percent-sum-wraps-uint32"] = w(func() string {
+		mem, err := lySparse(lyTopMem)
+		if err != nil {
+			return ""
+		}
+		defer syscall.Munmap(mem)
+		s := st.lyTop(mem, [][2]uint32{{945751536, 30}, {1048576, 4294967295}, {65536, 1}})
+		if s != "" {
+			s = "createBufferManager on a 4294967295-byte mapping with pairs [{945751536 30} {1048576 4294967295} {65536 1}]: " + s
+		}
+		return s
+	})
 	st.res.Witness["queue-cap-times-12-wraps-uint32"] = w(func() string {
 		s := lyTopQueue(357913942)
 		if s != "" {
@@ -1098,7 +1171,11 @@ func TestVS_Layout(t *testing.T) {
 				}
 			case "E":
 				if mem, err := lySparse(lyTopMem); err == nil {
-					if bad := st.lyTop(mem, uint32(row[0]), uint32(row[1])); bad != "" {
+					prs := [][2]uint32{}
+					for i := 0; i+1 < len(row); i += 2 {
+						prs = append(prs, [2]uint32{uint32(row[i]), uint32(row[i+1])})
+					}
+					if bad := st.lyTop(mem, prs); bad != "" {
 						st.violate("uint32 edge", bad, "E", row, 0)
 					}
 					_ = syscall.Munmap(mem)
